@@ -258,6 +258,7 @@ UNIT = dict(
     'vhm.free_ext.own_bucket': dict(deciding=True, text='free_extension_item finds the extension bucket that contains the item by address arithmetic (for any base address aligned as allocate_block aligns it) and pushes the item on that free list only; lock released'),
     'vhm.lock_bucket.acquired': dict(deciding=True, text='[INT] lock_bucket returns only after its CAS changed the state of bucket hash & mask of the current block from an unlocked value st to st.locked(); it reports that bucket, that block and st; it never stores anything else'),
     'vhm.grow.conserves': dict(deciding=True, text='do_grow: an arbitrary key of the old bucket is afterwards in bucket hash & new_mask of the new block with the same value (node) and in no other bucket; absent keys stay absent; item totals agree; new buckets are well formed, each new extension item is in exactly one place; the new block is published, the old one retired once and its buckets stay locked; on bad_alloc nothing changed'),
+    'vhm.grow.publish_order': dict(deciding=True, text='do_grow writes every bucket state, slot and extension item of the new block before the single release store of data_block that makes the block visible, and nothing in the new block afterwards; on bad_alloc nothing is published or written'),
     'vhm.grow.resize_lock': dict(deciding=True, text='grow takes the resize lock, releases the bucket lock before do_grow runs, calls do_grow exactly once when it got the resize lock, and the resize lock is free afterwards'),
     'vhm.get.validated': dict(deciding=True, text='[INT] try_get_value returns true only with the value it loaded from the value cell of an item whose key cell (and, NONTRIVIAL, whose node key) matched, and only if a state load made after the value load shows the version of this iteration\'s first state load and a delete marker different from that slot; extension items are reached through pointers loaded in the same iteration'),
     'vhm.get.terminates': dict(deciding=True, text='[SOLO] with a stable bucket (no interference) try_get_value returns within the shape bound: the retry loop is not re-entered, the array loop makes <= 3 and the chain loop <= chain-length iterations (unwinding assertions)'),
